@@ -243,7 +243,7 @@ fn band_case(ctx: &Ctx, rep: &mut Report, case: u64, g: &mut Sm64) {
     let d = g.range(1, 5);
     // an additive constant in the unnormalised log-density (e.g. a likelihood over many
     // observations) must not matter: only energy differences enter
-    let shift = if g.chance(0.5) { 0.0 } else { g.log_uniform(1e3, 1e8) * if g.bool() { 1.0 } else { -1.0 } };
+    let shift = if g.chance(0.5) { 0.0 } else { g.log_uniform(1e6, 1e8) * if g.bool() { 1.0 } else { -1.0 } };
     let base = DenseGauss::random(g, d, 10.0);
     let target = Shifted { inner: base.clone(), c: shift };
     if shift != 0.0 {
@@ -252,24 +252,53 @@ fn band_case(ctx: &Ctx, rep: &mut Report, case: u64, g: &mut Sm64) {
     let delta = *g.choose(&[0.6f64, 0.8, 0.9, 0.95]);
     let (warm, post, chains) = if ctx.thorough { (500, 300, 16) } else { (300, 150, 6) };
     let mut stats = vec![];
+    let (mut ln_eps, mut ln_eps_twin) = (vec![], vec![]);
     for c in 0..chains {
         let init = base.draw(g);
         let seed = g.next_u64();
-        hook::enable();
-        let r = guard(|| {
-            let mut chain = NUTSChain::<f64, B64, Shifted<DenseGauss>>::new(target.clone(), init.clone(), delta).set_seed(seed);
-            let _ = chain.run(post, warm);
-        });
-        let events = hook::take();
-        hook::disable();
-        if let Err(m) = r {
-            rep.violation("NUTSChain::run panic", mon, case, json!({"panic": m, "chain": c}));
-            return;
-        }
-        let tr = parse(&events);
+        let mut run_one = |tg: Shifted<DenseGauss>| -> Result<Vec<Trace>, String> {
+            hook::enable();
+            let r = guard(|| {
+                let mut chain = NUTSChain::<f64, B64, Shifted<DenseGauss>>::new(tg, init.clone(), delta).set_seed(seed);
+                let _ = chain.run(post, warm);
+            });
+            let events = hook::take();
+            hook::disable();
+            r.map(|_| parse(&events))
+        };
+        let tr = match run_one(target.clone()) {
+            Ok(t) => t,
+            Err(m) => {
+                rep.violation("NUTSChain::run panic", mon, case, json!({"panic": m, "chain": c}));
+                return;
+            }
+        };
         rep.evals(tr.len() as u64);
         let post_stats: Vec<f64> = tr.iter().filter(|t| t.m > warm + 1).map(stat_of).collect();
         stats.push(post_stats.iter().sum::<f64>() / post_stats.len() as f64);
+        if shift != 0.0 {
+            // the twin without the constant, same start and seed
+            if let (Some(a), Ok(tw)) = (tr.last(), run_one(Shifted { inner: base.clone(), c: 0.0 })) {
+                if let Some(b) = tw.last() {
+                    ln_eps.push(a.epsilon.ln());
+                    ln_eps_twin.push(b.epsilon.ln());
+                }
+            }
+        }
+    }
+    if shift != 0.0 && ln_eps.len() == chains {
+        // a sampler sees only differences of the log-density: up to rounding of size |c|*2^-52 in
+        // the energies (which can flip a rare discrete decision in one chain) the adapted step
+        // sizes coincide; chain-to-chain they scatter by ~10 %
+        let m = |v: &Vec<f64>| v.iter().sum::<f64>() / v.len() as f64;
+        let dlog = m(&ln_eps) - m(&ln_eps_twin);
+        rep.max("abs_log_ratio_adapted_step_size_with_vs_without_additive_constant", dlog.abs());
+        if dlog.abs() > 0.25 {
+            rep.violation("NUTSChain adapted-step-size-depends-on-an-additive-constant-of-the-log-density", mon, case,
+                json!({"additive_constant": shift, "delta": delta, "dim": d, "ln_eps_with": ln_eps, "ln_eps_without": ln_eps_twin}));
+            return;
+        }
+        rep.held();
     }
     let mean = stats.iter().sum::<f64>() / stats.len() as f64;
     rep.distinct(("band", d, (delta * 100.0) as u64, case));
@@ -409,7 +438,7 @@ pub fn run(ctx: &Ctx, rep: &mut Report) {
             _ => nan_region_case::<f32, B64>(ctx, rep, c, &mut g, "NdArray<f64>"),
         }
     }
-    for c in ctx.case_ids("band", 8, 256) {
+    for c in ctx.case_ids("band", 12, 256) {
         let mut g = ctx.rng("band", c);
         band_case(ctx, rep, c, &mut g);
     }
